@@ -26,6 +26,10 @@ impl DeleteListener for Rec {
         };
         self.ns.push(format!("d.{}.{}.{}", idx, enc_text(string), d));
     }
+    fn delete_around(&mut self, idx: usize, before: &str, after: &str) {
+        let whole = format!("{}{}", before, after);
+        self.ns.push(format!("d.{}.{}.A{}", idx, enc_text(&whole), before.len()));
+    }
     fn stop_killing(&mut self) {
         self.ns.push("ek".into());
     }
